@@ -195,6 +195,15 @@ ALSO['C11'] += ' Objects with a past (evaluations, refused mutators, nested edit
 ALSO['C13'] += ' In-place attach.'
 ALSO['C16'] += ' Stored bytes may change between write and load (NaN field, non-UTF-8 byte).'
 ALSO['C17'] += ' Snapshot copies.'
+# leaked handles and round 5
+ALSO['C05'] += ' Handles left open by a failed call are finalised later: an acknowledged file must not change.'
+ALSO['C06'] += ' Leaked-handle finalisation; the prefactor is anchored in the constants table and the sites.'
+ALSO['C07'] += ' Leaked-handle finalisation; NASA-9 entries judged range by range.'
+ALSO['C08'] += ' The relations are also judged in five energy units and with the zero-point energy included.'
+ALSO['C10'] += ' Evaluations within millikelvins of T_ref; temperature through the species block.'
+ALSO['C11'] += ' Fitted T_mid values observed at the boundary; coverage passed to the getters.'
+ALSO['C16'] += ' Temperature-dependent heat capacities; species used above their fitted range.'
+ALSO['C01'] += ' Integer temperatures.'
 
 
 def build():
